@@ -47,7 +47,7 @@ REAL_VS_STUB = {
 }
 PROBES = ["all_commands_succeed", "first_command_fails", "middle_command_fails", "last_command_fails", "death_by_signal", "return_file_missing",
           "all_return_files_missing", "return_file_is_input_file", "binary_input_file", "unnamed_command", "no_return_files_requested",
-          "runner_killed_mid_command", "driver_second_instance_used_after_first", "driver_job_level_override", "driver_subclass_instance"]
+          "runner_killed_mid_command", "driver_second_instance_used_after_first", "driver_job_level_override", "driver_subclass_instance", "driver_created_used_dropped"]
 
 FAIL_KINDS = [("rc", 1), ("rc", 2), ("rc", 255), ("sig", -11)]
 
@@ -311,6 +311,40 @@ def _drivers(plan, res):
         if len(set(seq)) >= 2:
             res.stats["probe:driver_second_instance_used_after_first"] += 1
             res.keys.append("drv|" + digest((spec, seq)))
+    # ---- churn: drivers that were used and then dropped are "other drivers used before" too.  A pool of short-lived
+    # instances with distinct settings is created, used once and released; a second pool is then created (CPython hands
+    # the released addresses to the new objects) and used.  Which addresses get reused is up to the allocator, so the
+    # verdict is kept independent of it: every driver is used, and at most ONE violation with a generic text is reported.
+    import gc
+
+    def pool(tag, n=48):
+        bad = 0
+        ds = []
+        for rnd in range(n):
+            s_ = spec["instances"][rnd % k]
+            cls = Sub if (rnd % 5 == 0) else Drv
+            ds.append((rnd, s_, cls(executable=f"{s_['executable']}_{tag}{rnd}", nprocs=1 + (rnd * 7) % 9, memory=s_["memory"],
+                                    envars={f"CHURN_{tag}": str(rnd)}, check_exe=False, find=False)))
+        for rnd, s_, d in ds:
+            ji = d.calc.prepare(f"churn{rnd}", flag="C")
+            res.stats["probe:driver_created_used_dropped"] += 1
+            exe = jl.get("executable") or f"{s_['executable']}_{tag}{rnd}"
+            npr = jl.get("nprocs") or (1 + (rnd * 7) % 9)
+            mem = s_["memory"] or 1000
+            want_env = {f"CHURN_{tag}": str(rnd)}
+            want_env.update(jl.get("envars") or {})
+            if ji.commands[0][0] != f"{exe} -n {npr} -m {mem} --flag C churn{rnd}" or dict(ji.envars or {}) != want_env:
+                bad += 1
+        del ds
+        gc.collect()
+        return bad
+
+    res.evals += 96
+    bad = pool("a") + pool("b")
+    if bad:
+        res.violate("driver-settings", "C17|driver-settings|after=earlier-drivers-released",
+                    "after a pool of drivers had been used and released, a newly created driver with other settings built a JobInput "
+                    "carrying the executable / nprocs / envars of a released one (settings must not be remembered per object address)")
 
 
 def run_plan(plan, trace=False):
@@ -367,7 +401,8 @@ def run_plan(plan, trace=False):
             if len(res.violations) >= 6:
                 break
         if only is None:
-            _drivers(plan, res)
+            with pipeline_seams(FakeExec(lambda *a: {}), SimSpawn()):
+                _drivers(plan, res)
     except HarnessError:
         raise
     except Exception as e:  # noqa: BLE001
